@@ -108,6 +108,20 @@ func c11DecodeInto(w *rt.W, data []byte, before date.Date) (accepted bool) {
 	badLen := len(data) != 7
 	badVer := len(data) == 0 || data[0] != 1
 	if err != nil {
+		// the caller refills its buffer with the next record before it looks at the error: what the error says
+		// and which documented error it is must not change
+		msg := err.Error()
+		isLen, isVer := errors.Is(err, date.ErrInvalidLength), errors.Is(err, date.ErrUnsupportedVersion)
+		next := c11Encode(2022, 8, 7)
+		for i := range in {
+			in[i] = next[i%len(next)]
+		}
+		if m2 := err.Error(); m2 != msg || errors.Is(err, date.ErrInvalidLength) != isLen || errors.Is(err, date.ErrUnsupportedVersion) != isVer {
+			fail("error-changes-when-the-input-buffer-is-refilled", m2, msg)
+		}
+		copy(in, data)
+	}
+	if err != nil {
 		if !recv.Equal(before) {
 			fail("receiver-changed-on-error", recv.String(), before.String())
 		}
